@@ -398,6 +398,7 @@ func errNameProgs(e *Env) []*Program {
 		f3 := b.Func(0, "", t3, true, true, t2)
 		b.Inj("Init", t3, true, true, nil, refs(f1, f2, f3)...)
 		b.P.PkgVars = ds
+		b.P.PkgIdents = []string{"err", "err2", "cleanup", "cleanup2"}
 		b.P.Feat = map[string]string{"shape": "pkg-scope-names", "decls": fmt.Sprint(ds)}
 		b.P.Note = "pkg-scope-err-name"
 		progs = append(progs, b.P)
